@@ -2,6 +2,7 @@
 //! `verif-hooks`) on generated cases and writes request lines for the Lean driver, the
 //! implementation's answers, and the failures of oracles evaluated on the implementation.
 mod corpus;
+mod e2e;
 mod gen;
 mod html;
 mod mime;
@@ -58,6 +59,7 @@ fn main() {
         "parse" => parse::run(&args),
         "html" => html::run(&args),
         "sub" => sub::run(&args),
+        "e2e" => e2e::run(&args),
         "sass" => sass::run(&args),
         "mime" => mime::run(&args),
         "script" => script::run(&args),
